@@ -383,8 +383,17 @@ func (c *Ctx) lenMinusRule(rule string, fns []*ssa.Function, suppress map[string
 					}
 					n++
 					construct := fmt.Sprintf("%s:%s at len-%d", load.FuncName(f), u.Role, k)
-					if why, ok := suppress[load.FuncName(f)]; ok {
-						c.S.OK(rule, construct, c.pos(u.At.Pos()), "suppressed: "+why, false)
+					// a suppression names the producer of the slice (an external function whose result is known
+					// non-empty for the reason given), not the function the access happens to sit in: a helper that is
+					// handed that result by all its callers is covered too
+					supp := ""
+					for prod, why := range suppress {
+						if c.producedBy(x, prod, 0) {
+							supp = why
+						}
+					}
+					if supp != "" {
+						c.S.OK(rule, construct, c.pos(u.At.Pos()), "suppressed: "+supp, false)
 						continue
 					}
 					have := c.minLenLifted(u.At.Block(), x, 0)
@@ -1542,4 +1551,51 @@ func (c *Ctx) tableIndexRule(rule string, fns []*ssa.Function) int {
 		}
 	}
 	return n
+}
+
+// producedBy: v is the first result of a call to the function named prod, or a parameter of an unexported function
+// all of whose static call sites pass such a value.
+func (c *Ctx) producedBy(v ssa.Value, prod string, depth int) bool {
+	if depth > 2 {
+		return false
+	}
+	switch x := v.(type) {
+	case *ssa.Extract:
+		if call, ok := x.Tuple.(*ssa.Call); ok && x.Index == 0 {
+			if cal := call.Call.StaticCallee(); cal != nil && cal.String() == prod {
+				return true
+			}
+		}
+	case *ssa.Call:
+		if cal := x.Call.StaticCallee(); cal != nil && cal.String() == prod {
+			return true
+		}
+	case *ssa.Parameter:
+		fn := x.Parent()
+		if fn.Object() != nil && fn.Object().Exported() {
+			return false
+		}
+		idx := -1
+		for i, p := range fn.Params {
+			if p == x {
+				idx = i
+			}
+		}
+		node := c.P.CallGraph().Nodes[fn]
+		if node == nil || idx < 0 {
+			return false
+		}
+		n := 0
+		for _, e := range node.In {
+			if e.Site == nil || e.Site.Common().StaticCallee() != fn || c.isTestFunc(e.Caller.Func) {
+				continue
+			}
+			n++
+			if idx >= len(e.Site.Common().Args) || !c.producedBy(e.Site.Common().Args[idx], prod, depth+1) {
+				return false
+			}
+		}
+		return n > 0
+	}
+	return false
 }
